@@ -60,9 +60,13 @@ func GenConc(t *rapid.T) ConcCase {
 		for j := 0; j < n; j++ {
 			op := sessfs.GenOp(t, 2)
 			// shared fids on purpose; sometimes a fid this goroutine allocated itself
-			if len(mine) > 0 && rapid.IntRange(0, 3).Draw(t, "useown") == 0 {
+			switch {
+			case len(mine) > 0 && rapid.IntRange(0, 3).Draw(t, "useown") == 0:
 				op.Fid = rapid.SampledFrom(mine).Draw(t, "ownfid")
-			} else {
+			case rapid.IntRange(0, 5).Draw(t, "useforeign") == 0:
+				// *use* (never allocate) a fid that another goroutine may be binding right now
+				op.Fid = ownFid(rapid.IntRange(0, g-1).Draw(t, "fg"), rapid.IntRange(0, 2).Draw(t, "fj"))
+			default:
 				op.Fid = rapid.SampledFrom(pool).Draw(t, "sharedfid")
 			}
 			switch op.Kind {
@@ -87,6 +91,17 @@ func GenConc(t *rapid.T) ConcCase {
 			if own > 9 {
 				own = 9
 			}
+			if op.Kind == "create" && op.Fault == "opendir" {
+				op.Fault = "create"
+			}
+			if op.Fid >= 100 && !isMine(mine, op.Fid) {
+				// a foreign fid is only *used*: never unbound or rebound by somebody else
+				switch op.Kind {
+				case "stat", "wstat", "read", "write", "open":
+				default:
+					op = sessfs.Op{Kind: "stat", Fid: op.Fid}
+				}
+			}
 			ops = append(ops, op)
 		}
 		c.Threads = append(c.Threads, ops)
@@ -96,19 +111,44 @@ func GenConc(t *rapid.T) ConcCase {
 	return c
 }
 
+func isMine(mine []uint32, f uint32) bool {
+	for _, m := range mine {
+		if m == f {
+			return true
+		}
+	}
+	return false
+}
+
 type event struct {
 	g    int
 	kind string // parked | done
 	rel  chan struct{}
 }
 
-func doOp(s p9p.Session, ctx context.Context, op sessfs.Op) error {
+type opResult struct {
+	op    sessfs.Op
+	err   error
+	nqids int
+}
+
+func doOp(s p9p.Session, ctx context.Context, op sessfs.Op) opResult {
 	var err error
+	r := opResult{op: op}
+	defer func() { r.err = err }()
+	return doOp1(s, ctx, op, &r, &err)
+}
+
+func doOp1(s p9p.Session, ctx context.Context, op sessfs.Op, r *opResult, perr *error) opResult {
+	var err error
+	defer func() { *perr = err; r.err = err }()
 	switch op.Kind {
 	case "attach":
 		_, err = s.Attach(ctx, p9p.Fid(op.Fid), p9p.Fid(op.Afid), "user", "")
 	case "walk":
-		_, err = s.Walk(ctx, p9p.Fid(op.Fid), p9p.Fid(op.Newfid), op.Names...)
+		var q []p9p.Qid
+		q, err = s.Walk(ctx, p9p.Fid(op.Fid), p9p.Fid(op.Newfid), op.Names...)
+		r.nqids = len(q)
 	case "open":
 		_, _, err = s.Open(ctx, p9p.Fid(op.Fid), p9p.Flag(op.Mode))
 	case "create":
@@ -126,7 +166,8 @@ func doOp(s p9p.Session, ctx context.Context, op sessfs.Op) error {
 	case "remove":
 		err = s.Remove(ctx, p9p.Fid(op.Fid))
 	}
-	return err
+	r.err = err
+	return *r
 }
 
 type curOp struct {
@@ -199,6 +240,16 @@ func RunConc(c ConcCase) harn.Result {
 	}
 	var clock int64
 	var spans []opspan
+	var results []opResult
+	// which fids are bound when the concurrent phase starts
+	initial := map[uint32]bool{}
+	if tab, ok := p9p.VerifFidTable(sess); ok {
+		for _, te := range tab {
+			if te.HasEnt {
+				initial[uint32(te.Fid)] = true
+			}
+		}
+	}
 	for gi, ops := range c.Threads {
 		g := gi + 1
 		wg.Add(1)
@@ -211,8 +262,9 @@ func RunConc(c ConcCase) harn.Result {
 				clock++
 				st := clock
 				mu.Unlock()
-				doOp(sess, ctx, op)
+				r := doOp(sess, ctx, op)
 				mu.Lock()
+				results = append(results, r)
 				clock++
 				spans = append(spans, opspan{g: g, i: i, start: st, end: clock})
 				mu.Unlock()
@@ -300,6 +352,58 @@ func RunConc(c ConcCase) harn.Result {
 		}
 		if !te.HasEnt {
 			return harn.Fail("fid %d is left reserved without an entry after all operations returned", te.Fid)
+		}
+	}
+	// conservation of bindings per fid: a necessary condition for the results to be those of
+	// *some* sequential order.  Every successful attach / complete walk onto F binds it once;
+	// every clunk/remove that did not fail with "unknown fid" unbound it once; a fid is
+	// bound at most once at a time.
+	final := map[uint32]bool{}
+	for _, te := range tab {
+		final[uint32(te.Fid)] = true
+	}
+	binds, unbinds := map[uint32]int{}, map[uint32]int{}
+	for _, r := range results {
+		switch r.op.Kind {
+		case "attach":
+			if r.err == nil {
+				binds[r.op.Fid]++
+			}
+		case "walk":
+			if r.err == nil && r.op.Newfid != r.op.Fid && r.nqids == len(r.op.Names) {
+				binds[r.op.Newfid]++
+			}
+		case "clunk", "remove":
+			if r.err != p9p.ErrUnknownfid {
+				unbinds[r.op.Fid]++
+			}
+		}
+	}
+	fidsSeen := map[uint32]bool{}
+	for f := range initial {
+		fidsSeen[f] = true
+	}
+	for f := range binds {
+		fidsSeen[f] = true
+	}
+	for f := range unbinds {
+		fidsSeen[f] = true
+	}
+	for f := range final {
+		fidsSeen[f] = true
+	}
+	for f := range fidsSeen {
+		n := binds[f] - unbinds[f]
+		if initial[f] {
+			n++
+		}
+		want := 0
+		if final[f] {
+			want = 1
+		}
+		if n != want {
+			return harn.Fail("fid %d: bound at the start=%v, %d operations reported binding it, %d clunk/remove operations reported unbinding it, bound at the end=%v — no sequential order of the operations explains these results (gate release order: %s)",
+				f, initial[f], binds[f], unbinds[f], final[f], strings.Join(order, " "))
 		}
 	}
 	// non-trivial: two ops on the same fid overlapped in real time
